@@ -11,6 +11,7 @@
 -/
 import C4E.Distr1
 import C4E.Distributor
+import C4E.Bridge
 namespace C4E.Props.C03
 open C4E C4E.Distr1
 
@@ -49,6 +50,83 @@ theorem books_after_block_nonvacuous : closed true exSubs = true ∧ allSubOk ex
   simp only [exSubs, allSubOk, subOk, sharesOk, sumShares, and_true]
   unfold P
   refine ⟨⟨⟨by omega, by omega⟩, by omega, by omega⟩, trivial, by omega, by omega⟩
+
+/-! ### the form used by the executable bridge (`C4E.Bridge`)
+
+The bridge compares the faithful multi-denomination model with `Distr1.subStep` per sub-distributor
+(fault flags given per position) followed by `Distr1.payout`.  The same theorem for that form: -/
+
+def runSubsL : List (List Bool) → World → List Sub → World
+  | _, w, [] => w
+  | fl, w, sub :: rest => runSubsL fl.tail (subStep (fl.headD []) w sub) rest
+
+theorem runSubsL_spec : ∀ (subs : List Sub) (fl : List (List Bool)) (w : World) (pending : Bool), WOk w → allSubOk subs →
+      (pending = false → U w = 0) → closed pending subs = true →
+      WOk (runSubsL fl w subs) ∧ U (runSubsL fl w subs) = 0 := by
+  intro subs
+  induction subs with
+  | nil =>
+    intro fl w pending h _ hp hc
+    simp only [closed, Bool.not_eq_true'] at hc
+    exact ⟨h, hp hc⟩
+  | cons sub rest ih =>
+    intro fl w pending h hall hp hc
+    obtain ⟨hok, hrest⟩ := hall
+    obtain ⟨s1, s2⟩ := subStep_spec (fl.headD []) w sub h hok
+    simp only [closed] at hc
+    simp only [runSubsL]
+    apply ih _ _ _ s1 hrest _ hc
+    intro hpend
+    by_cases hmd : hasMainDest sub = true
+    · simp [hmd] at hpend
+    · have hmd' : hasMainDest sub = false := by simpa using hmd
+      rw [s2 hmd']
+      by_cases hms : hasMain sub.sources = true
+      · simp [hms]
+      · simp only [hmd', hms] at hpend
+        simp only [hms]; exact hp (by simpa using hpend)
+
+/-- books balanced after a block executed the way the bridge executes it: per-position sweep
+    faults `fl`, payout faults `ψ` -/
+theorem books_after_block_bridge (fl : List (List Bool)) (ψ : List Bool) (w : World) (subs : List Sub)
+    (h : WOk w) (hall : allSubOk subs) (hc : closed true subs = true) :
+    let w1 := runSubsL fl w subs
+    let r := payout ψ w1.main w1.states
+    r.1 - sumRem r.2 = 0 ∧ allNonneg r.2 := by
+  obtain ⟨r1, r2⟩ := runSubsL_spec subs fl w true h hall (by intro h; cases h) hc
+  obtain ⟨p1, p2⟩ := payout_spec (runSubsL fl w subs).states ψ (runSubsL fl w subs).main r1.nn
+  refine ⟨?_, p2⟩
+  rw [p1]; exact r2
+
+/-- the Boolean hypothesis checks evaluated by the bridge on every generated block are sound -/
+theorem sharesOkB_sound : ∀ l, Bridge.sharesOkB l = true → sharesOk l
+  | [], _ => trivial
+  | s :: r, h => by
+    simp only [Bridge.sharesOkB, Bool.and_eq_true, decide_eq_true_eq] at h
+    exact ⟨h.1, sharesOkB_sound r h.2⟩
+
+theorem allSubOkB_sound : ∀ l, Bridge.allSubOkB l = true → allSubOk l
+  | [], _ => trivial
+  | s :: r, h => by
+    simp only [Bridge.allSubOkB, Bridge.subOkB, Bool.and_eq_true, decide_eq_true_eq] at h
+    exact ⟨⟨sharesOkB_sound _ h.1.1.1, h.1.1.2, h.1.2⟩, allSubOkB_sound r h.2⟩
+
+theorem nonnegB_sound : ∀ l, Bridge.nonnegB l = true → allNonneg l
+  | [], _ => trivial
+  | s :: r, h => by
+    simp only [Bridge.nonnegB, Bool.and_eq_true, decide_eq_true_eq] at h
+    exact ⟨h.1, nonnegB_sound r h.2⟩
+
+/-- what a `br=ok` verdict of the bridge rests on: when the evaluated checks pass (and balances
+    are non-negative, a bank invariant), the Distr1 execution the faithful model was compared with
+    ends the block with balanced books, whatever failed -/
+theorem bridge_checked_block (subs : List Distr.SubD) (w : World) (fl : List (List Bool)) (ψ : List Bool)
+    (hcfg : Bridge.cfgHyps subs = true) (hnn : Bridge.nonnegB w.states = true) (hu : 0 ≤ U w) (hbal : ∀ a, 0 ≤ w.bal a) :
+    let w1 := runSubsL fl w (subs.map Bridge.convSub)
+    let r := payout ψ w1.main w1.states
+    r.1 - sumRem r.2 = 0 ∧ allNonneg r.2 := by
+  simp only [Bridge.cfgHyps, Bool.and_eq_true] at hcfg
+  exact books_after_block_bridge fl ψ w _ ⟨nonnegB_sound _ hnn, hbal, hu⟩ (allSubOkB_sound _ hcfg.1) hcfg.2
 
 /-- full multi-denomination statement over the faithful model (target; see header). -/
 def books_step_full : Prop :=
